@@ -41,6 +41,11 @@ type PubSubChainExchange struct {
 	topic                *pubsub.Topic
 	stop                 func() error
 	encoding             encoding.EncodeDecoder[*Message]
+
+	// cacheMu serialises the two caching paths (own broadcasts and chains read from
+	// the subscription), so that a wanted placeholder is replaced, and the listener
+	// notified of it, exactly once.
+	cacheMu sync.Mutex
 }
 
 func NewPubSubChainExchange(o ...Option) (*PubSubChainExchange, error) {
@@ -260,10 +265,12 @@ func (p *PubSubChainExchange) validatePubSubMessage(ctx context.Context, _ peer.
 
 func (p *PubSubChainExchange) cacheAsDiscoveredChain(ctx context.Context, cmsg Message) {
 
-	wanted := p.getChainsDiscoveredAt(ctx, cmsg.Instance)
+	wanted := p.getChainsWantedAt(ctx, cmsg.Instance)
 	discovered := p.getChainsDiscoveredAt(ctx, cmsg.Instance)
 
+	var notifications []discovery
 	allPrefixes := cmsg.Chain.AllPrefixes()
+	p.cacheMu.Lock()
 	for i := len(allPrefixes) - 1; i >= 0 && ctx.Err() == nil; i-- {
 		prefix := allPrefixes[i]
 		key := prefix.Key()
@@ -286,6 +293,12 @@ func (p *PubSubChainExchange) cacheAsDiscoveredChain(ctx context.Context, cmsg M
 			})
 			metrics.chains.Add(ctx, 1, metric.WithAttributeSet(
 				attrFromWantedDiscovered(true, true)))
+			if p.listener != nil {
+				notifications = append(notifications, discovery{
+					instance: cmsg.Instance,
+					chain:    prefix,
+				})
+			}
 		}
 		// Nothing to do; the discovered value is already in the wanted chains with
 		// discovered value.
@@ -293,6 +306,16 @@ func (p *PubSubChainExchange) cacheAsDiscoveredChain(ctx context.Context, cmsg M
 		// Continue with the remaining prefix keys as we do not know if any of them have
 		// been evicted from the cache or not. This should be cheap enough considering the
 		// added complexity of tracking evictions relative to chain prefixes.
+	}
+	p.cacheMu.Unlock()
+
+	// A wanted chain has been discovered: tell the listener, exactly as a lookup
+	// that promotes a discovered chain to wanted does.
+	if p.listener != nil {
+		for _, notification := range notifications {
+			p.listener.NotifyChainDiscovered(ctx, notification.instance, notification.chain)
+		}
+		metrics.notifications.Add(ctx, int64(len(notifications)))
 	}
 }
 
@@ -331,6 +354,7 @@ func (p *PubSubChainExchange) cacheAsWantedChain(ctx context.Context, cmsg Messa
 	wanted := p.getChainsWantedAt(ctx, cmsg.Instance)
 
 	allPrefixes := cmsg.Chain.AllPrefixes()
+	p.cacheMu.Lock()
 	for i := len(allPrefixes) - 1; i >= 0 && ctx.Err() == nil; i-- {
 		prefix := allPrefixes[i]
 		key := prefix.Key()
@@ -356,6 +380,7 @@ func (p *PubSubChainExchange) cacheAsWantedChain(ctx context.Context, cmsg Messa
 		// been evicted from the cache or not. This should be cheap enough considering the
 		// added complexity of tracking evictions relative to chain prefixes.
 	}
+	p.cacheMu.Unlock()
 
 	// Notify the listener outside the lock.
 	if p.listener != nil {
